@@ -53,6 +53,7 @@ def reader_core(ctx, src):
     u = Unit(ctx, 'reader_core')
     u.raw('#include "stubs/libc.h"\n' + TYPES)
     call = lambda n: Rule(r'self->%s\((\s*\))?' % n, lambda mo: M(n) + ('(self)' if mo.group(1) else '(self, '), count='+', regex=True)
+    callopt = lambda n: Rule(r'self->%s\((\s*\))?' % n, lambda mo: M(n) + ('(self)' if mo.group(1) else '(self, '), count=None, regex=True)
     # --- Strings.hh, inline members ---
     u.function(src, HH, r'inline const void\* pgetv\(size_t offset, size_t size\) const', scope=SR,
                new_header='const void* %s(const StringReader* self, size_t offset, size_t size)' % M('pgetv'), ret_zero='0')
@@ -94,11 +95,11 @@ def reader_core(ctx, src):
     cc('peek', r'const char\* StringReader::peek\(size_t size\)', 'const char* %s(StringReader* self, size_t size)' % M('peek'), ret_zero='0')
     cc('skip_if', r'bool StringReader::skip_if\(const void\* data, size_t size\)',
        'bool %s(StringReader* self, const void* data, size_t size)' % M('skip_if'),
-       rules=[call('remaining'), call('peek'), Rule('memcmp(', 'verif_memcmp(', count=1),
+       rules=[callopt('remaining'), callopt('peek'), callopt('eof'), callopt('where'), callopt('size'), Rule('memcmp(', 'verif_memcmp(', count=None),
               # peek() may throw inside the condition: the lowered callee returns 0 with verif_exc set and the memcmp
               # stub ignores its arguments while an exception is in flight; both branches then re-raise first
-              Rule('return false;', 'if (verif_exc) return 0; return false;', count=1),
-              Rule('self->skip(size);', 'if (verif_exc) return 0; %s(self, size); if (verif_exc) return 0;' % M('skip'), count=1)])
+              Rule('return false;', 'if (verif_exc) return 0; return false;', count=None),
+              Rule('self->skip(size);', 'if (verif_exc) return 0; %s(self, size); if (verif_exc) return 0;' % M('skip'), count=None)])
     MC = Rule('memcpy(', 'verif_memcpy(', count='+')
     cc('pread', r'size_t StringReader::pread\(size_t offset, void\* data, size_t size\) const',
        'size_t %s(const StringReader* self, size_t offset, void* data, size_t size)' % M('pread_buf'), rules=[MC])
@@ -169,9 +170,11 @@ def tmpl_units(ctx, src):
                rules=[Rule('self->data.append(((const char*)(&v)), sizeof(v));', 'vstr_append(&self->data, ((const char*)(v)), sizeof(*v));', count=1)])
     u.function(src, HH, r'void pput\(size_t offset, const T& v\)', scope=SW,
                new_header='static inline void SWPPUT(T)(StringWriter* self, size_t offset, const T* v)', ret_zero='',
-               rules=[Rule('self->data.size()', 'vstr_size(&self->data)', count=1),
-                      Rule(r"self->data\.resize\(([^;]*?), ('[^']*')\);", r"vstr_resize_x(&self->data, \1, \2); if (verif_exc) return;", count=1, regex=True),
-                      Rule('memcpy(self->data.data() + offset, &v, sizeof(v));', 'verif_memcpy(vstr_data(&self->data) + offset, v, sizeof(*v));', count=1)])
+               rules=[Rule('self->data.size()', 'vstr_size(&self->data)', count=None),
+                      Rule(r'self->extend_to\(([^;,]*)\);', r"StringWriter_extend_to(self, \1, '\\0' /* default argument */); if (verif_exc) return;", count=None, regex=True),
+                      Rule(r'self->extend_by\(([^;,]*)\);', r"StringWriter_extend_by(self, \1, '\\0' /* default argument */); if (verif_exc) return;", count=None, regex=True),
+                      Rule(r"self->data\.resize\(([^;]*?), ('[^']*')\);", r"vstr_resize_x(&self->data, \1, \2); if (verif_exc) return;", count=None, regex=True),
+                      Rule(r'memcpy\(self->data\.data\(\) \+ ([^,;]*), &v, sizeof\(v\)\);', r'verif_memcpy(vstr_data(&self->data) + \1, v, sizeof(*v));', count=None, regex=True)])
     # BufferWriter
     u.function(src, HH, r'void put\(const T& v\)', scope=BW,
                new_header='static inline void BWPUT(T)(BufferWriter* self, const T* v)',
@@ -181,6 +184,15 @@ def tmpl_units(ctx, src):
                rules=[Rule('self->pwrite(offset, &v, sizeof(v));', 'BufferWriter_pwrite(self, offset, v, sizeof(*v));', count=1)])
     u.write(suffix='.inc')
     return u
+
+
+# type-directed rewrites of std::string members on the member `data` (a vstr in the C mirror)
+DATA_MEMBERS = [Rule(r'self->data\.back\(\)', 'self->data.data[vstr_size(&self->data) - 1]', count=None, regex=True),
+                Rule(r'self->data\.front\(\)', 'self->data.data[0]', count=None, regex=True),
+                Rule(r'self->data\.empty\(\)', '(vstr_size(&self->data) == 0)', count=None, regex=True),
+                Rule(r'self->data\.clear\(\)', 'vstr_clear(&self->data)', count=None, regex=True),
+                Rule(r'self->data\.pop_back\(\)', 'vstr_pop_back(&self->data)', count=None, regex=True),
+                Rule(r'self->data\.at\(([^;)]*)\)', r'self->data.data[\1]', count=None, regex=True)]
 
 
 def writer_core(ctx, src):
@@ -207,12 +219,12 @@ def writer_core(ctx, src):
     u.function(src, CC, r'size_t BitWriter::size\(\) const', new_header='size_t BitWriter_size(const BitWriter* self)',
                rules=[Rule('self->data.size()', 'vstr_size(&self->data)', count=1)])
     u.function(src, CC, r'void BitWriter::write\(bool v\)', new_header='void BitWriter_write(BitWriter* self, bool v)',
-               rules=[Rule('self->data[self->data.size() - 1]', 'self->data.data[vstr_size(&self->data) - 1]', count=1),
-                      Rule('self->data.push_back(', 'vstr_push_back(&self->data, ', count=1)])
+               rules=DATA_MEMBERS + [Rule(r'self->data\[', 'self->data.data[', count=None, regex=True), Rule('self->data.size()', 'vstr_size(&self->data)', count=None),
+                      Rule('self->data.push_back(', 'vstr_push_back(&self->data, ', count=None)])
     u.function(src, CC, r'void BitWriter::truncate\(size_t size\)', new_header='void BitWriter_truncate(BitWriter* self, size_t size)',
-               rules=[Rule('self->data.size()', 'vstr_size(&self->data)', count=2),
-                      Rule('self->data.resize((size + 7) / 8);', "vstr_resize_x(&self->data, (size + 7) / 8, '\\0');", count=1),
-                      Rule('self->data[vstr_size(&self->data) - 1]', 'self->data.data[vstr_size(&self->data) - 1]', count=1)], ret_zero='')
+               rules=DATA_MEMBERS + [Rule('self->data.size()', 'vstr_size(&self->data)', count='+'),
+                      Rule(r'self->data\.resize\(([^;,]*)\);', r"vstr_resize_x(&self->data, \1, '\\0');", count=None, regex=True),
+                      Rule(r'self->data\[', 'self->data.data[', count=None, regex=True)], ret_zero='')
     u.function(src, CC, r'uint64_t BitReader::pread\(size_t start_offset, uint8_t size\)',
                new_header='uint64_t BitReader_pread(BitReader* self, size_t start_offset, uint8_t size)', ret_zero='0',
                nloops=1, loops={1: BITREADER_LOOP})
@@ -245,32 +257,39 @@ def reader_str(ctx, src):
                new_header='void %s(const StringReader* self, vstr* ret, size_t offset, size_t size)' % M('preadx_str'), rules=RS, ret_zero='')
     u.function(src, CC, r'string StringReader::read\(size_t size, bool advance\)',
                new_header='void %s(StringReader* self, vstr* ret, size_t size, bool advance)' % M('read_str'),
-               rules=[Rule('string ret = self->pread(self->offset, size);', '%s(self, ret, self->offset, size);' % M('pread_str'), count=1),
-                      Rule('ret.size()', 'vstr_size(ret)', count='+'), Rule('return ret;', 'return;', count=1)])
+               rules=[Rule(r'\bstring ret = self->pread\(', '%s(self, ret, ' % M('pread_str'), count=None, regex=True),
+                      Rule('ret.size()', 'vstr_size(ret)', count=None), Rule('return ret;', 'return;', count='+')])
     u.function(src, CC, r'string StringReader::readx\(size_t size, bool advance\)',
                new_header='void %s(StringReader* self, vstr* ret, size_t size, bool advance)' % M('readx_str'),
-               rules=[Rule('string ret = self->preadx(self->offset, size);', '%s(self, ret, self->offset, size); if (verif_exc) return;' % M('preadx_str'), count=1),
-                      Rule('ret.size()', 'vstr_size(ret)', count='+'), Rule('return ret;', 'return;', count=1)])
+               rules=[Rule(r'\bstring ret = self->preadx\(', '%s(self, ret, ' % M('preadx_str'), count=None, regex=True),
+                      Rule('ret.size()', 'vstr_size(ret)', count=None), Rule('return ret;', 'return;', count='+')],
+               may_throw=[M('preadx_str')], ret_zero='')
     P8 = M('pget_s8')
+    # type-directed rewrites for a function whose result is the local `std::string ret` (out-parameter `vstr* ret`) and that
+    # calls other reader members; every rule tolerates edits of the surrounding code (a changed body must reach the verifier)
+    def STR(*calls):
+        rs = [Rule(r'\bstring ret;', '', count=None, regex=True),
+              Rule(r'\bret\.size\(\)', 'vstr_size(ret)', count=None, regex=True),
+              Rule(r'\bret\.empty\(\)', '(vstr_size(ret) == 0)', count=None, regex=True),
+              Rule(r'\bret \+= (\w+);', r'vstr_push_back(ret, \1);', count=None, regex=True),
+              Rule(r'\bret\.push_back\(', 'vstr_push_back(ret, ', count=None, regex=True),
+              Rule(r'\bret\.pop_back\(\);', 'vstr_pop_back(ret);', count=None, regex=True),
+              Rule('ends_with(ret, "\\r")', "vstr_ends_with_c(ret, '\\r')", count=None),
+              Rule(r'\bstring ret = self->(pget_cstr|pread|preadx)\(', lambda mo: '%s(self, ret, ' % M({'pget_cstr': 'pget_cstr', 'pread': 'pread_str', 'preadx': 'preadx_str'}[mo.group(1)]), count=None, regex=True),
+              Rule(r'return ret;', 'return;', count='+')]
+        for c in calls:
+            rs.append(Rule(r'self->%s\((\s*\))?' % c, (lambda c: lambda mo: M(c) + ('(self)' if mo.group(1) else '(self, '))(c), count=None, regex=True))
+        return rs
+    THROWERS = [P8, M('pget_cstr'), M('preadx_str')]
     u.function(src, CC, r'string StringReader::pget_cstr\(size_t offset\) const',
-               new_header='void %s(const StringReader* self, vstr* ret, size_t offset)' % M('pget_cstr'),
-               rules=[Rule('string ret;', '', count=1),
-                      Rule('uint8_t ch = self->pget_s8(offset + ret.size());', 'uint8_t ch = %s(self, offset + vstr_size(ret)); if (verif_exc) return;' % P8, count=1),
-                      Rule('ret += ch;', 'vstr_push_back(ret, ch);', count=1), Rule('return ret;', 'return;', count=1)],
-               nloops=1, loops={1: CSTR_LOOP})
+               new_header='void %s(const StringReader* self, vstr* ret, size_t offset)' % M('pget_cstr'), ret_zero='',
+               rules=STR('pget_s8', 'eof'), may_throw=THROWERS, nloops=1, loops={1: CSTR_LOOP})
     u.function(src, CC, r'string StringReader::get_cstr\(bool advance\)',
-               new_header='void %s(StringReader* self, vstr* ret, bool advance)' % M('get_cstr'),
-               rules=[Rule('string ret = self->pget_cstr(self->offset);', '%s(self, ret, self->offset); if (verif_exc) return;' % M('pget_cstr'), count=1),
-                      Rule('ret.size()', 'vstr_size(ret)', count='+'), Rule('return ret;', 'return;', count=1)])
+               new_header='void %s(StringReader* self, vstr* ret, bool advance)' % M('get_cstr'), ret_zero='',
+               rules=STR('pget_s8', 'eof'), may_throw=THROWERS)
     u.function(src, CC, r'string StringReader::get_line\(bool advance\)',
                new_header='void %s(StringReader* self, vstr* ret, bool advance)' % M('get_line'), ret_zero='',
-               rules=[Rule('self->eof()', M('eof') + '(self)', count=1), Rule('string ret;', '', count=1),
-                      Rule('ret.size()', 'vstr_size(ret)', count=2),
-                      Rule('uint8_t ch = self->pget_s8(ch_offset);', 'uint8_t ch = %s(self, ch_offset); if (verif_exc) return;' % P8, count=1),
-                      Rule('ret += ch;', 'vstr_push_back(ret, ch);', count=1),
-                      Rule('if (ends_with(ret, "\\r")) {', "if (vstr_ends_with_c(ret, '\\r')) {", count=1),
-                      Rule('ret.pop_back();', 'vstr_pop_back(ret);', count=1), Rule('return ret;', 'return;', count=1)],
-               nloops=1, loops={1: LINE_LOOP})
+               rules=STR('pget_s8', 'eof'), may_throw=THROWERS, nloops=1, loops={1: LINE_LOOP})
     return u
 
 
